@@ -154,7 +154,9 @@ PROPS = {
         rule="valid multi-program streams (with repeated tables) under five kinds of hostile edit: none; 1..11 length-like bytes "
              "steered to boundary values (adaptation_field_length 0/1/181..184/255, pointer_field, section_length, 12-bit lengths, PES "
              "header length, adaptation control, sync byte, single bit flips); dropped / duplicated / swapped packets; table PIDs "
-             "flooded with section-shaped junk of boundary lengths, half with a valid CRC; pure random packets; plus truncation and "
+             "flooded with section-shaped junk of boundary lengths, half with a valid CRC; grammar-directed hostile sequences on the table "
+             "PIDs (starts leaving 0..8 bytes outstanding, pointer_field at/beyond the end, starts with <3 / <8 bytes, continuations, "
+             "payload-less packets); pure random packets; plus truncation and "
              "unaligned junk inserted between packets; the repository's own fuzz corpus; random byte strings; five chunking styles "
              "(whole, per packet, random aligned, random unaligned 1..700 bytes, byte-by-byte); every case with the deep observer "
              "(every accessor and Debug rendering of every packet, adaptation field, PES header, PMT, stream and descriptor handed "
@@ -172,7 +174,7 @@ PROPS = {
         rule="histories of PAT / PMT versions on 1..3 programs: programs added, removed, reordered; streams added, removed, re-typed, "
              "reversed; single- and multi-packet PMTs; re-listed programs repeating their PMT; a network (program_number 0) entry in a "
              "fifth; after every step one probe packet on every PID of interest; every 23rd history shares an elementary PID between "
-             "two programs (finding F7); the routing the latest valid tables call for is recomputed from the transmitted tables and "
+             "two programs (finding F7) and every 23rd lets a PID migrate from one program to another (never listed by both at once); the routing the latest valid tables call for is recomputed from the transmitted tables and "
              "compared with the request each probe's handler was built from; distinct = distinct case lines",
         trusted=["harness/src/suites/hist.rs (history generator and its annotations)", "bin/trace.py history_judge (ideal routing table; known-class predicates F2 / F7 / F8)"],
         assumptions=["single-section tables marked current; one table per PID (current_next_indicator and section_number are ignored by the processors)"],
@@ -186,9 +188,11 @@ PROPS = {
         rule="after the tables are installed, 1..3 rounds of: an open PES packet whose transport packets straddle 1..6 (thorough 40) "
              "repetitions of the PAT / a PMT (single- and multi-packet), a PMT version change and change back now and then; every 17th "
              "history changes the PAT version first (finding F8); no request may be caused by a repetition and the ES call-back protocol "
-             "must hold; distinct = distinct case lines",
-        trusted=["harness/src/suites/hist.rs", "bin/trace.py history_judge"],
-        assumptions=["repetitions are undamaged transmissions (a malformed start packet resets the chain's version memory; that is C11's domain)"],
+             "must hold; payload-less packets on the table PIDs inside and behind a quarter of the transmissions; every fourth history adds "
+             "a burst of 2..5 tightly packed copies of a re-sized PMT (the second copy starting with 1..100 of its bytes left in the packet: "
+             "finding F9 for 1..2, copy not parsed for 3..7); distinct = distinct case lines",
+        trusted=["harness/src/suites/hist.rs", "bin/trace.py history_judge / reset_packets (known class F9)"],
+        assumptions=["repetitions are undamaged transmissions with a valid pointer_field"],
     ),
     "C11": dict(
         props_files=["Props/C11.v"],
@@ -197,7 +201,8 @@ PROPS = {
         judge=mk_history_judge("C11"),
         judge_always=True,
         rule="a PAT or PMT transmission (single- or multi-packet; a quarter of the time the very first copy in the stream) damaged by "
-             "1..3 bit flips anywhere in the section, a dropped packet, or truncation by the next start; then 1..3 intact copies with "
+             "1..3 bit flips anywhere in the section, a dropped packet, truncation by the next start, or a hit on the section header "
+             "(section_syntax_indicator cleared / length above the limit); then 1..3 intact copies with "
              "the same version and one with a bumped version, probes after each; an intact table whose version differs from the one "
              "last applied must be applied, unless its version equals that of a section started but not applied since (finding F2); "
              "distinct = distinct case lines",
@@ -252,8 +257,9 @@ PROPS = {
         cross=_trace.chunking_groups,
         exhaustive=True,
         rule="40 short streams (<= 9 packets; thorough 60 of <= 13), half well-formed (PAT, PMT, PES with repeats), half hostile "
-             "(bad sync, bit flips, duplicated / dropped packets), each pushed under ALL 2^(n-1) packet-aligned chunkings with empty "
-             "pushes inserted; 40 long streams under 6 random chunkings; the implementation's full call-back trace must equal that "
+             "(bad sync, bit flips, duplicated / dropped packets, a transport-error or scrambled copy right behind a packet of the same "
+             "PID), each pushed under ALL 2^(n-1) packet-aligned chunkings with empty pushes inserted; 120 (thorough 400) scripted streams "
+             "of 2..8 (10) packets over 2..3 PIDs whose handlers queue inserts / removes incl. for their own PID, under all chunkings; 40 long streams under 6 random chunkings; the implementation's full call-back trace must equal that "
              "of the single push; distinct = distinct case lines",
         trusted=["bin/trace.py chunking_groups: implementation-vs-implementation comparison across chunkings"],
         assumptions=["chunk boundaries are packet-aligned, as the property states"],
@@ -328,7 +334,8 @@ PROPS = {
              "strings up to 1024 bytes (thorough: 4096) and each of them followed by its CRC, compared with the extracted *bitwise* "
              "Annex A register (not the table model); gate: PAT/PMT installs handlers, then the next version of the PAT or PMT "
              "arrives damaged (every single bit for sections <= 80 bytes, sampled bit pairs, bursts of 2..32 bits, random byte "
-             "damage; single- and multi-packet), then probe packets on every PID of interest; distinct = distinct case lines",
+             "damage; single- and multi-packet), then probe packets on every PID of interest; also the applied table itself re-sent with "
+             "another version_number, damaged body and its old CRC_32 field; distinct = distinct case lines",
         trusted=["ISO/IEC 13818-1 Annex A decoder model as transcribed in coq/Spec/CrcSpec.v",
                  "CRC table and preset are copied from the source by bin/gen_tables.py on every run; the table proof is re-checked against them"],
         assumptions=["input bytes are < 256", "the CRC gate is stated for the normal build; under cfg(fuzzing) the comparison is bypassed by design"],
